@@ -187,6 +187,22 @@ def failed_rotation_scenarios(tier):
     return scs
 
 
+def refused_rename_scenarios(tier):
+    """The environment refuses the n-th rename '<name>.part' -> '<name>' (EPERM).  That output cannot be published; whatever
+    the writer does about it, no system call writes to a final name and at no crash point is a file under a final name
+    anything but pre-existing or complete."""
+    scs = []
+    sid = 9700
+    chunks = [{"id": 1, "n": 20000, "pat": "text"}, {"id": 2, "n": 700, "pat": "rand", "seed": 3}, {"id": 3, "n": 30000, "pat": "rand", "seed": 8}]
+    for comp in (["none", "xz"] if tier == "quick" else ["none", "gz", "xz"]):
+        for n, sh in ((1, [("w", 1), ("w", 3)]), (2, [("w", 2), ("rot", 0), ("w", 1), ("rot", 0), ("w", 3)]), (1, [("w", 3), ("rot", 0), ("w", 2)])):
+            sid += 1
+            steps = [{"op": "w", "c": a} if o == "w" else {"op": "rot"} for o, a in sh]
+            scs.append({"id": sid, "target": "writer", "comp": comp, "kind": "file", "chunks": chunks, "steps": steps,
+                        "pre": [1, 2], "rename_fail": n})
+    return scs
+
+
 def pending_scenarios(tier, kinds=("file",)):
     """Compressed outputs closed while the compressor still holds back much data: incompressible outputs whose sizes run
     through the residues of the compressors' internal chunking (LZMA2 chunks of up to 64 KiB are held back whole), closed
